@@ -109,6 +109,7 @@ func Explore(r *vk.Run, cfg Config) *Stats {
 						continue
 					}
 					expand(r, cfg, w, n, &mu, seen, obs, st, &next, &stop, &transitions, &checks)
+					vk.InflightIdle(w)
 				}
 			}()
 		}
